@@ -28,6 +28,7 @@ GROUPS = [["cfb"], ["ofb", "ctr"], ["ecb", "cbc", "bc", "ofbnlf", "block"], ["xt
 
 
 def run(ctx):
+    ctx.kats(["KAT_SM4", "KAT_Modes"], seed_const=("GF2Agree", "BigNatAgree"))
     L = lens(ctx.tier)
     out = os.path.join(ctx.scratch, "c03.ndjson")
     jobs, outs = [], []
@@ -46,7 +47,20 @@ def run(ctx):
                                     BlockLens=S([0, 16, 48]), EcbLens=S([16, 48]), XtsLens=S([16, 17, 31, 32, 33, 47, 65]), HctrLens=S([16, 17, 31, 32, 33, 40]),
                                     CarryBs=S([1]), Cuts=S([16]), MaxCalls=1, Bufs=S([]), OutFile=core.tla_str(out + ".rt")),
                      invariants=("TypeOK", "LenPreserved", "RoundTrip")))
+    # implementation-shaped model of the assembly CTR stream (ctr{ctr,out,outUsed}, refill, genCtr) with a symbolic block function:
+    # refines the abstract keystream for every partition into calls, in the scaled geometries of the 8-block and the 4-block tiers
+    top = 40 if ctx.tier == "quick" else 72
+    for nm, g in (("b8", dict(BS=2, BB=4, CAP=32, CMOD=11)), ("b4", dict(BS=2, BB=2, CAP=32, CMOD=13)), ("wide", dict(BS=4, BB=2, CAP=16, CMOD=8))):
+        jobs.append(dict(module="CtrImpl", name="CtrImpl_" + nm, workers=2, timeout=1500, invariants=("BufferOk",), properties=("Refines",),
+                         constants=dict(g, IVs=core.tla_set([0, 3, g["CMOD"] - 1]), Lens=core.tla_set(range(0, top + 1)), MaxCalls=3, Variant='"ok"')))
     ctx.tlc_many(jobs, parallel=5)
+    for slip in ("nomove", "nowrap"):          # the model must refute the named slips (a model that cannot fail proves nothing)
+        neg = ctx.tlc("CtrImpl", dict(BS=2, BB=4, CAP=32, CMOD=11, IVs=core.tla_set([0, 10]), Lens=core.tla_set(range(0, 41)), MaxCalls=3, Variant='"%s"' % slip),
+                      invariants=("BufferOk",), properties=("Refines",), workers=1, timeout=600, name="CtrImpl_" + slip, allow_fail=True)
+        ctx.tlc_runs.remove(neg)
+        if neg["ok"] or "is violated" not in neg["out_tail"]:
+            raise core.Infra("CtrImpl: the slip %r was not refuted by TLC" % slip)
+    ctx.extra["ctrimpl_slips_refuted"] = ["nomove", "nowrap"]
     core.cat_files(outs, out)
     wr = ("native", "blockonly", "batched")
     cf = cfgs.k_sm4(wr, full=(ctx.tier == "thorough"))
